@@ -275,12 +275,11 @@ impl FileWriter {
     }
 
     fn verify_nullability_constraints(&self, batch: &RecordBatch) -> Result<()> {
-        for (col, field) in batch
-            .columns()
-            .iter()
-            .zip(self.schema.as_ref().unwrap().fields.iter())
-        {
-            Self::verify_field_nullability(&col.to_data(), field)?;
+        // Columns are matched by name, like in `encode_batch` (which also reports a missing column)
+        for field in self.schema.as_ref().unwrap().fields.iter() {
+            if let Some(col) = batch.column_by_name(&field.name) {
+                Self::verify_field_nullability(&col.to_data(), field)?;
+            }
         }
         Ok(())
     }
